@@ -61,7 +61,7 @@ def main(run: Run) -> int:
     for j in glue.step_jobs("C05", fns=("step", "refine")):
         alljobs.append(dict(j, module="vf.harness.rc_step", bound="all 21x21 abstract operand pairs of this callback partition (refine: x both resolutions of each UNKNOWN operand)"))
     thorough = run.tier == "thorough"
-    configs = [(1, 6, 0), (2, 5, 1), (3, 2, 0)] if thorough else [(1, 3, 0), (2, 3, 0)]
+    configs = [(1, 6, 0), (2, 5, 1), (3, 2, 0)] if thorough else [(1, 3, 0), (2, 2, 1)]
     total = 0
     for nl, nk, at in configs:
         g = {"NLEAVES": nl, "NKINDS": nk, "ATTACH": at}
@@ -71,6 +71,11 @@ def main(run: Run) -> int:
         total += n
         for lo in range(0, n, 30):
             alljobs.append({"fn": "meta", "module": "vf.harness.meta_glue", "globals": dict(g, LO=lo, HI=min(n, lo + 30)), "timeout": 600, "bound": "metamorphic cases of this partition"})
+    meta_glue.P_ALPHAS = 27 if thorough else 8
+    npc = len(meta_glue.prec_cases())
+    for lo in range(0, npc, 40):
+        alljobs.append({"fn": "prec", "module": "vf.harness.meta_glue", "globals": {"P_ALPHAS": meta_glue.P_ALPHAS, "LO": lo, "HI": min(npc, lo + 40)}, "timeout": 600, "bound": "bracket-redundancy cases of this partition"})
+    run.bounds["redundant_brackets"] = f"{npc} cases: every 3-operand expression over U/O/X (both groupings), rendered with the minimal brackets of the documented precedence and {'every mix of letter/symbol/lower-case spellings' if thorough else 'the letter/symbol spelling mixes'}, vs. fully bracketed; {'all 27' if thorough else 'all 8 FULFILLED/UNFULFILLED'} assignments"
     alljobs.sort(key=lambda j: -j.get("timeout", 0))
     for r, j in zip(xh.run_jobs(run, "vf.harness.rc_step", alljobs), alljobs):
         xh.default_verdict(run, r, feats, bound=j["bound"])
